@@ -122,6 +122,42 @@ def run(chk, build):
             disagreements.append({"view": view, "samples": s, "registry": list(rn), "dkr": dkr, "dkf": dkf})
         if errs:
             disagreements.append({"view": view, "error": errs[0]})
+    # ---- registry level: after merge_models every model is in normal form and another pass changes nothing
+    from .. import pipeline
+    from json_to_models.generator import MetadataGenerator
+    from json_to_models.registry import ModelRegistry
+    gr = gen.Gen(chk.seed * 1000003 + 88)
+    for i in range(300 if tier == "quick" else 10000):
+        s = gr.samples(depth=4, nmax=4)
+        spec = gr.r.choice([None, [("exact",)], [("percent", 0.5)], [("number", 2)], [("number", 1)], [("percent", 0.7), ("number", 3)]])
+        sreg = impl.make_registry(RN3)
+        G = MetadataGenerator(sreg)
+        reg = ModelRegistry(*impl.make_cmp(spec))
+        info = {"samples": s, "merge": spec, "stage": "registry"}
+        chk.count(key=("reg", repr(s), repr(spec)), sample=info if i == 0 else None)
+        try:
+            reg.process_meta_data(G.generate(*copy.deepcopy(s)), "Root")
+            reps = reg.merge_models(G)
+        except Exception as e:  # noqa
+            oracle_failed |= chk.fail("oracle", info, f"merge_models raises {type(e).__name__}: {e}")
+            continue
+        why = None
+        for m in reg.models:
+            v = nfcheck.nf_violations(m.type, sreg)
+            if v:
+                why = f"model {m.index} is not in normal form after merge_models: " + "; ".join(v[:2])
+                break
+            before = ct.pyty(m.type)
+            try:
+                G.optimize_type(m)
+            except Exception as e:  # noqa
+                why = f"another simplification pass over model {m.index} raises {type(e).__name__}: {e}"
+                break
+            if ct.pyty(m.type) != before:
+                why = f"another simplification pass changes model {m.index}"
+                break
+        if why:
+            oracle_failed |= chk.fail("oracle", info, why)
     # ---- X-union: every multiset of <= 3 members of the universe (the property's own quantifier)
     kmax = 3
     uterms, umeta = [], []
@@ -170,6 +206,9 @@ def finish(chk):
 
 def replay(chk, path):
     r = base.load_replay(path)
+    if r.get("stage") == "registry":
+        print("replay: re-run the registry-level oracle with ./check C08 (the case is in the file)")
+        return 1
     if "samples" in r:
         why = oracle_samples(r["samples"], tuple(r.get("registry", RN3)), r.get("dkr"), r.get("dkf"))
     elif "union_members" in r:
